@@ -968,6 +968,121 @@ Lemma branch_demo :
 Proof. reflexivity. Qed.
 
 (* ------------------------------------------------------------------ *)
+(* the whole node: parameter / media type / 2.0 body parameter object   *)
+(* ------------------------------------------------------------------ *)
+Lemma self_in_expand d subs : expand_res (JObj d) = Ok subs -> In (JObj d) subs.
+Proof.
+  intros Ex. unfold expand_res in Ex.
+  destruct (branch_list s_anyOf d); [|discriminate]. destruct (branch_list s_oneOf d); [|discriminate].
+  cbn [bind] in Ex.
+  destruct (assoc_get s_allOf d) as [xl|];
+    [destruct xl as [| | | |[|first rest]|]; try discriminate;
+     destruct (fold_left merge_sub rest (Some first)); try discriminate |];
+  inversion Ex; left; reflexivity.
+Qed.
+
+Lemma node_values_gen_pick pick esf node unresolved vs :
+  node_values_gen pick esf node unresolved = Ok vs ->
+  exists defs rest, node_defs_res node = Ok defs /\ vs = pick defs ++ rest.
+Proof.
+  intros H. unfold node_values_gen in H.
+  destruct (node_defs_res node) as [defs|e]; [|discriminate]. cbn [bind] in H.
+  destruct (match obj_get esf node with Some x => inner_res x unresolved | None => Ok [] end) as [inner|e]; [|discriminate].
+  cbn [bind] in H.
+  destruct (match obj_get s_schema node with
+            | Some sch => bind (expand_res sch) (fun subs => fold_left (multi_step esf) subs (Ok []))
+            | None => Ok [] end) as [multi|e]; [|discriminate].
+  cbn [bind] in H. inversion H. exists defs, (inner ++ multi). split; reflexivity.
+Qed.
+
+(* every keyword of the list that is present in a definition of the node gives
+   an extracted value: the node itself ... *)
+Lemma node_keyword_extracted efs esf node unresolved ef v vs :
+  In ef efs -> obj_get ef node = Some v ->
+  node_values_res efs esf node unresolved = Ok vs -> In v vs.
+Proof.
+  intros He Hv H. apply node_values_gen_pick in H. destruct H as (defs & rest & Hd & ->).
+  apply in_or_app. left. apply (singles_In efs defs node ef v); [|exact He|exact Hv].
+  unfold node_defs_res in Hd. destruct (obj_get s_schema node) as [sch|].
+  - destruct (expand_res sch) as [subs|e]; [|discriminate]. cbn [bind] in Hd. inversion Hd. left. reflexivity.
+  - inversion Hd. left. reflexivity.
+Qed.
+
+(* ... and every expanded subschema of its schema *)
+Lemma node_schema_keyword_extracted efs esf node unresolved sch subs s ef v vs :
+  obj_get s_schema node = Some sch -> expand_res sch = Ok subs -> In s subs ->
+  In ef efs -> obj_get ef s = Some v ->
+  node_values_res efs esf node unresolved = Ok vs -> In v vs.
+Proof.
+  intros Hs Hx Hin He Hv H. apply node_values_gen_pick in H. destruct H as (defs & rest & Hd & ->).
+  apply in_or_app. left. apply (singles_In efs defs s ef v); [|exact He|exact Hv].
+  unfold node_defs_res in Hd. rewrite Hs, Hx in Hd. cbn [bind] in Hd. inversion Hd. right. exact Hin.
+Qed.
+
+(* OpenAPI 2.0: a node (and the schema of a node) carrying BOTH example and
+   x-example gives both values *)
+Lemma both_keywords_extracted esf node unresolved v w vs :
+  obj_get s_example node = Some v -> obj_get s_x_example node = Some w ->
+  node_values_res [s_example; s_x_example] esf node unresolved = Ok vs -> In v vs /\ In w vs.
+Proof.
+  intros Hv Hw H. split.
+  - eapply node_keyword_extracted; [|exact Hv|exact H]. left. reflexivity.
+  - eapply node_keyword_extracted; [|exact Hw|exact H]. right. left. reflexivity.
+Qed.
+
+Lemma both_keywords_of_schema_extracted esf node unresolved d v w vs :
+  obj_get s_schema node = Some (JObj d) ->
+  assoc_get s_example d = Some v -> assoc_get s_x_example d = Some w ->
+  node_values_res [s_example; s_x_example] esf node unresolved = Ok vs -> In v vs /\ In w vs.
+Proof.
+  intros Hs Hv Hw H.
+  assert (Hx : exists subs, expand_res (JObj d) = Ok subs).
+  { pose proof H as H'. apply node_values_gen_pick in H'. destruct H' as (defs & rest & Hd & _).
+    unfold node_defs_res in Hd. rewrite Hs in Hd. destruct (expand_res (JObj d)) as [subs|e]; [|discriminate].
+    exists subs. reflexivity. }
+  destruct Hx as (subs & Hx). pose proof (self_in_expand d subs Hx) as Hin.
+  split.
+  - eapply (node_schema_keyword_extracted _ _ _ _ _ _ (JObj d) s_example); [exact Hs|exact Hx|exact Hin| |exact Hv|exact H].
+    left. reflexivity.
+  - eapply (node_schema_keyword_extracted _ _ _ _ _ _ (JObj d) s_x_example); [exact Hs|exact Hx|exact Hin| |exact Hw|exact H].
+    right. left. reflexivity.
+Qed.
+
+(* the sentinel (first keyword present only, x-example preferred) loses the plain
+   example of a 2.0 query parameter and of a 2.0 body parameter + body schema;
+   the rule of the code gives every value *)
+Definition s_type : str := [116;121;112;101]%N.
+Definition node_both_query : json :=
+  JObj [(s_name, JStr [113]%N); (s_in, JStr s_query); (s_type, JStr [115;116;114;105;110;103]%N);
+        (s_x_example, JStr [120]%N); (s_example, JStr [101]%N)].
+Definition node_both_body : json :=
+  JObj [(s_name, JStr [98]%N); (s_in, JStr [98;111;100;121]%N);
+        (s_x_example, JInt 1); (s_example, JInt 2);
+        (s_schema, JObj [(s_x_example, JInt 3); (s_example, JInt 4);
+                         (s_anyOf, JArr [JObj [(s_example, JInt 5); (s_x_example, JInt 6)]])])].
+Lemma first_keyword_only_refuted :
+  obj_get s_example node_both_query = Some (JStr [101]%N) /\ obj_get s_x_example node_both_query = Some (JStr [120]%N) /\
+  node_values [s_example; s_x_example] s_x_examples node_both_query node_both_query = XOk [JStr [101]%N; JStr [120]%N] /\
+  node_values_first_only [s_x_example; s_example] s_x_examples node_both_query node_both_query = XOk [JStr [120]%N] /\
+  node_values [s_example; s_x_example] s_x_examples node_both_body node_both_body
+    = XOk [JInt 2; JInt 1; JInt 4; JInt 3; JInt 5; JInt 6] /\
+  node_values_first_only [s_x_example; s_example] s_x_examples node_both_body node_both_body
+    = XOk [JInt 1; JInt 3; JInt 6].
+Proof. repeat split; reflexivity. Qed.
+
+(* non-vacuity: the hypotheses of both_keywords(_of_schema)_extracted hold on the witnesses *)
+Lemma both_keywords_demo :
+  obj_get s_example node_both_body = Some (JInt 2) /\ obj_get s_x_example node_both_body = Some (JInt 1) /\
+  (exists d, obj_get s_schema node_both_body = Some (JObj d) /\
+             assoc_get s_example d = Some (JInt 4) /\ assoc_get s_x_example d = Some (JInt 3)) /\
+  exists vs, node_values_res [s_example; s_x_example] s_x_examples node_both_body node_both_body = Ok vs.
+Proof.
+  repeat split; try reflexivity.
+  - eexists. repeat split; reflexivity.
+  - eexists. reflexivity.
+Qed.
+
+(* ------------------------------------------------------------------ *)
 (* the examples lookup by (name, location)                             *)
 (* ------------------------------------------------------------------ *)
 Lemma lookup_by_location pre p post name loc field x :
